@@ -3,29 +3,190 @@
 package routing
 
 import (
+	"bytes"
+	"time"
+
 	"github.com/dtn7/dtn7-go/pkg/bpv7"
+	"github.com/dtn7/dtn7-go/pkg/cla"
 	verif "github.com/dtn7/dtn7-go/pkg/zzverif"
 )
 
-// H05_Smoke: a real Core with epidemic routing, one connected peer: an application bundle for a remote node is
-// transmitted to the peer; with a failing send it stays in the store, pending.
-func H05_Smoke() {
-	var log []sendRec
-	c := testCore("epidemic", verif.TempDir("store"))
-	p := newMockCLA("peer1", &log)
-	p.fail = verif.Bool("fail")
-	c.RegisterConvergable(p)
-	settle()
-	b := dataBundle("dtn://this/app", "dtn://far/inbox", 0)
-	c.SendBundle(&b)
-	settle()
-	verif.Assert(len(log) == 1, "the bundle is handed to the connected peer once")
-	pend, err := c.store.QueryPending()
-	verif.Assert(err == nil, "pending query works")
-	if p.fail {
-		verif.Assert(len(pend) == 1, "after a failed send the bundle waits in the store, marked pending")
+// accepted is the harness's own record of a bundle the node accepted for forwarding.
+type accepted struct {
+	id      bpv7.BundleID
+	payload []byte
+	dest    bpv7.EndpointID
+	okSend  bool // a convergence layer reported a successful transmission
+}
+
+// node is a real Core plus the scripted peers around it.
+type node struct {
+	c     *Core
+	dir   string
+	algo  string
+	log   []sendRec
+	peers [2]*mockCLA
+	up    [2]bool
+	acc   []*accepted
+}
+
+func newNode(algo string) *node {
+	n := &node{algo: algo, dir: verif.TempDir("store")}
+	n.c = testCore(algo, n.dir)
+	n.peers[0] = newMockCLA("peer1", &n.log)
+	n.peers[1] = newMockCLA("peer2", &n.log)
+	return n
+}
+
+func (n *node) peerAppears(i int) {
+	if n.up[i] {
+		return
 	}
+	n.c.RegisterConvergable(n.peers[i])
+	n.up[i] = true
+	// a started convergence layer announces its peer
+	n.peers[i].ch <- cla.NewConvergencePeerAppeared(n.peers[i], n.peers[i].peer)
+	settle()
+}
+
+func (n *node) peerDisappears(i int) {
+	if !n.up[i] {
+		return
+	}
+	n.c.claManager.Unregister(n.peers[i])
+	n.up[i] = false
+	settle()
+}
+
+func (n *node) restart() {
+	n.c.Close()
+	n.c = testCore(n.algo, n.dir)
+	for i := range n.peers {
+		n.up[i] = false
+		n.peers[i].ch = make(chan cla.ConvergenceStatus, 8)
+	}
+}
+
+// noteSends updates the harness's record from the mock convergence layers' log.
+func (n *node) noteSends(from int) {
+	for _, r := range n.log[from:] {
+		for _, a := range n.acc {
+			if r.ok && r.b.ID().Scrub() == a.id.Scrub() {
+				a.okSend = true
+			}
+		}
+	}
+}
+
+// checkRetention: every accepted bundle without a successful transmission is in the store, loads as itself, and is
+// marked for retry.
+func (n *node) checkRetention(when string) {
+	pend, perr := n.c.store.QueryPending()
+	verif.Assert(perr == nil, "pending query works")
+	for _, a := range n.acc {
+		if a.okSend {
+			continue
+		}
+		bi, err := n.c.store.QueryId(a.id)
+		verif.Assert(err == nil, "an accepted bundle without a successful transmission stays in the store")
+		if err != nil {
+			return
+		}
+		var b bpv7.Bundle
+		var lerr error
+		if bi.Fragmented {
+			b, lerr = bi.Load()
+		} else {
+			b, lerr = bi.Parts[0].Load()
+		}
+		verif.Assert(lerr == nil, "the stored bundle loads")
+		pl, _ := b.PayloadBlock()
+		verif.Assert(pl != nil && bytes.Equal(pl.Value.(*bpv7.PayloadBlock).Data(), a.payload) && b.PrimaryBlock.Destination == a.dest, "the stored bundle is the accepted one")
+		isPending := false
+		for _, p := range pend {
+			if p.Id == bi.Id {
+				isPending = true
+			}
+		}
+		verif.Assert(isPending, "an accepted bundle without a successful transmission is marked for retry")
+	}
+}
+
+// H05_History: event histories over a real Core: application submits a bundle, a peer appears / disappears, a send
+// succeeds or fails (chosen per event), the pending-retry job fires, the store-cleaning job fires, the node
+// restarts. Same-millisecond submissions occur (the clock only moves with the ticks).
+func H05_History() {
+	algos := []string{"epidemic", "spray", "binary_spray", "dtlsr", "prophet"}
+	n := newNode(algos[verif.Param("algo", 0)])
+	depth := verif.Size("depth", 1, verif.Param("depth", 3))
+	submitted := 0
+	for step := 0; step < depth; step++ {
+		before := len(n.log)
+		for i := range n.peers {
+			n.peers[i].fail = verif.Bool(nm("fail"+nm("p", i)+"s", step))
+		}
+		switch verif.Choose(nm("ev", step), 6) {
+		case 0: // application submits a bundle for a remote node (not a peer)
+			if submitted < 2 {
+				payload := []byte{byte('A' + submitted)}
+				b := dataBundle("dtn://this/app", "dtn://far/inbox", 0)
+				b.CanonicalBlocks[len(b.CanonicalBlocks)-1].Value = bpv7.NewPayloadBlock(payload)
+				n.c.SendBundle(&b)
+				settle()
+				n.acc = append(n.acc, &accepted{id: b.ID(), payload: payload, dest: b.PrimaryBlock.Destination})
+				submitted++
+			}
+		case 1:
+			n.peerAppears(0)
+		case 2:
+			n.peerAppears(1)
+		case 3:
+			n.peerDisappears(verif.Choose(nm("which", step), 2))
+		case 4: // pending-retry tick
+			time.Sleep(10*time.Second + time.Millisecond)
+		case 5: // orderly restart
+			n.restart()
+		}
+		n.noteSends(before)
+		// epidemic: a newly connected peer is offered every bundle it does not have yet
+		n.checkRetention("after event")
+	}
+	// finally: every peer that is up and did not get a bundle successfully must have been offered it (epidemic)
+	if n.algo == "epidemic" {
+		for _, a := range n.acc {
+			for i := range n.peers {
+				if !n.up[i] {
+					continue
+				}
+				offered := false
+				for _, r := range n.log {
+					if r.peer == n.peers[i].addr && r.b.ID().Scrub() == a.id.Scrub() {
+						offered = true
+					}
+				}
+				verif.Assert(offered, "epidemic: a connected peer was offered every stored bundle")
+			}
+		}
+	}
+	verif.Reach("end")
+}
+
+// H05_SameMs: two application bundles created in the same millisecond are both retained.
+func H05_SameMs() {
+	n := newNode("epidemic")
+	for i := 0; i < 2; i++ {
+		payload := []byte{byte('A' + i)}
+		b := dataBundle("dtn://this/app", "dtn://far/inbox", 0)
+		b.CanonicalBlocks[len(b.CanonicalBlocks)-1].Value = bpv7.NewPayloadBlock(payload)
+		n.c.SendBundle(&b)
+		settle()
+		n.acc = append(n.acc, &accepted{id: b.ID(), payload: payload, dest: b.PrimaryBlock.Destination})
+	}
+	pend, _ := n.c.store.QueryPending()
 	verif.Observe("pending", len(pend))
-	_ = bpv7.DtnNone()
+	for _, p := range pend {
+		verif.Observe("key", p.Id)
+	}
+	verif.Assert(len(pend) == 2, "two bundles submitted in the same millisecond are both in the store")
 	verif.Reach("end")
 }
